@@ -2,6 +2,9 @@
 """Regenerates MANIFEST.json from the table below (kept in one place so it is always valid)."""
 import json, os
 CLAIMED = {
+ 'C05': dict(technique='exhaustive stack-depth and balance analysis of the T0 bytecode with native effects derived from the run function IR; struct layouts from debug info',
+             text='Static: for all seven T0 interpreters (X.509 minimal/decoder, private/public key decoders, PEM, client and server handshake) the maximum data and return stack depth over every path of every word fits the context arrays, every join is balanced, the call graph is acyclic and the stack pointers are initialised to the arrays. Decides VM stack safety for every input; does not decide the C code of native words.',
+             note='Trusted: clang 14 IR, irdump, sa/t0.py decoder; the interpreter skeleton is re-derived from IR (exit 2 if unrecognised). LP64 layouts.'),
  'C10': dict(technique='hypothesis folding (LLVM constant/range propagation under an added assumption) + must-conjunct dataflow on SSA, per implementation, with negative controls',
              text='Static: each listed validity result / length condition of the RSA public, private, verify, decrypt, unpad and key-derivation functions (i15, i31, i32, i62), when it signals failure, forces the failure return on every path; each padding-structure contribution is a conjunct of the verdict (loop-aware must-dataflow). Decides rejection discipline, not arithmetic correctness.',
              note='Trusted: clang/opt 14, the obligation table (sa/checks/c10.py), debug-info variable names as site selectors. Host configuration only in quick tier.'),
@@ -27,6 +30,7 @@ m = dict(
             source_commits=[], add_only=True),
  engines=[
   dict(name='IRF', path='tools/irdump.cc, sa/irf.py, sa/build.py', serves_properties=sorted(CLAIMED), kind_free_text='LLVM-IR facts (CFG, SSA, debug-info layouts) for every unit of the real build'),
+  dict(name='T0', path='sa/t0.py', serves_properties=['C05'], kind_free_text='decoder + analyses for the T0 bytecode embedded in the generated interpreters'),
   dict(name='FOLD', path='sa/fold.py, sa/oblig.py', serves_properties=['C10'], kind_free_text='hypothesis folding with opt-14 as abstract interpreter; must-conjunct dataflow'),
  ],
  checks=[dict(property_id=p, quick_cmd='./check %s --tier quick' % p, thorough_cmd='./check %s --tier thorough' % p,
